@@ -11,7 +11,7 @@ use serde_json::{json, Value};
 pub static ENGINE: Engine = Engine {
     prop: "C16",
     level: "exploration",
-    rule: "the real max_clique_gen binary on EVERY edge set over the vertex names {a,b,c} including self-loops (512 graphs; thorough: every loop-free edge set over {a,b,c,d}, 4096 graphs), every edge LIST of <= 3 edges over {a,b,c} (duplicates, both listing orders), the empty file, Windows line endings, and name families {x1, y', _z}, {a, v_a, b} (a vertex named like another vertex's copy) and {a_b, c, a, b_c} (colliding concatenations) ; every undirected graph on five vertices; structured graphs (paths, cycles, stars, complete, wheels, two cliques, bipartite) on 6..10 vertices with one-, two- and three-digit vertex names, graphs on 12..20 vertices (well-formedness, variable set, exact cliques with -a) and on 257 and 300 vertices (clique constraint and maximality premise judged on every vertex set of size <= 2); x {-u} x {-a}. Oracle: the emitted text is parsed by the reference parser and evaluated by brute force over all assignments (quantifier by enumeration); its models, read as vertex sets with unmentioned vertices unconstrained, must equal the brute-force maximum cliques (all cliques with -a) under the directed / undirected reading; the real `rsbdd -t -f true` on the same text must list the same sets. distinct = distinct (edge list, flags)",
+    rule: "the real max_clique_gen binary on EVERY edge set over the vertex names {a,b,c} including self-loops (512 graphs; thorough: every loop-free edge set over {a,b,c,d}, 4096 graphs), every edge LIST of <= 3 edges over {a,b,c} (duplicates, both listing orders), the empty file, Windows line endings, and name families {x1, y', _z}, {a, v_a, b} (a vertex named like another vertex's copy) and {a_b, c, a, b_c} (colliding concatenations) ; every undirected graph on five vertices; structured graphs (paths, cycles, stars, complete, wheels, two cliques, bipartite) on 6..10 vertices with one-, two- and three-digit vertex names, graphs on 12..20 vertices (well-formedness, variable set, exact cliques with -a) and on 257 and 300 vertices (clique constraint and maximality premise judged on every vertex set of size <= 2); x {-u} x {-a}. Oracle: the emitted text is parsed by the reference parser and evaluated by brute force over all assignments (quantifier by enumeration); its models, read as vertex sets with unmentioned vertices unconstrained, must equal the brute-force maximum cliques (all cliques with -a) under the directed / undirected reading; the real `rsbdd -t -f true` on the same text must list the same sets. Names differing only in letter case: every edge list <= 3 over {A, a, b, c} x -u. Layouts: CRLF, fields quoted the CSV way, no final newline. distinct = distinct (edge list, flags)",
     assumptions: &["clique = vertex set whose distinct members are pairwise adjacent; adjacency without -u needs both directions, with -u either", "vertex names are identifiers; graphs of <= 4 vertices"],
     max_shards: 64,
     run,
@@ -73,7 +73,8 @@ fn check_graph_eol(ctx: &mut Ctx, edges: &[(String, String)], u: bool, all: bool
     if all {
         args.push("-a".to_string());
     }
-    let g = run_bin("max_clique_gen", &args, Some(csv.as_bytes()), &[]);
+    // channel by case: edge list on stdin / as INPUT file / INPUT file and an existing OUTPUT file
+    let g = crate::cli::run_gen("max_clique_gen", &args, csv.as_bytes(), true, (edges.len() + u as usize + 2 * all as usize) % 3);
     if !g.ok() {
         ctx.violation(key, format!("max_clique_gen failed: {} {}", g.describe(), g.err_tail()), case(edges, u, all));
         return;
@@ -389,6 +390,7 @@ fn pairs(names: &[&str], loops: bool) -> Vec<(String, String)> {
 
 fn run(ctx: &mut Ctx) {
     let mut idx = 0u64;
+    let mut idx2 = 1u64 << 40;
     let th = ctx.thorough();
     let mut go = |ctx: &mut Ctx, edges: &[(String, String)], rs: bool| {
         for u in [false, true] {
@@ -456,6 +458,24 @@ fn run(ctx: &mut Ctx) {
             }
         }
     }
+    // names that differ only in letter case: every edge list of <= 3 lines over {A, a, b, c}
+    // (so that the two spellings can interleave), maximum cliques with and without -u
+    {
+        let p4 = pairs(&["A", "a", "b", "c"], false);
+        for len in 1..=3 {
+            let mut lists = vec![];
+            for_each_seq(p4.len(), len, &mut |_, d| lists.push(d.to_vec()));
+            for d in lists {
+                let edges: Vec<(String, String)> = d.iter().map(|i| p4[*i].clone()).collect();
+                for u in [true, false] {
+                    idx2 += 1;
+                    if ctx.mine(idx2) {
+                        check_graph(ctx, &edges, u, false, false);
+                    }
+                }
+            }
+        }
+    }
     // name families
     for names in [["x1", "y'", "_z"], ["a", "v_a", "b"], ["v_v_a", "v_a", "a"]] {
         let p = pairs(&names, false);
@@ -503,7 +523,6 @@ fn run(ctx: &mut Ctx) {
     }
     // 12..20 vertices: the emitted text must at least be a well-formed formula over the right
     // variables (all four flag sets); with -a (no quantifier) the models are checked exactly
-    let mut idx2 = 1u64 << 40;
     for n in [12usize, 16, 20] {
         let edges: Vec<(String, String)> = (0..n).map(|i| (format!("w{i}"), format!("w{}", (i + 1) % n))).chain((0..n / 2).map(|i| (format!("w{}", i + n / 2), format!("w{i}")))).collect();
         for (u, all) in [(true, true), (true, false), (false, false), (false, true)] {
